@@ -25,7 +25,8 @@ contract("binary_insort", params={"collection": "list:ref:Message", "message": "
                                " and implies(old(sorted_by_time(collection)),"
                                "             forall(0, p, lambda j: collection[j].time <= message.time) and forall(p + 1, len(collection), lambda j: message.time < collection[j].time)))"),
                   ("sorted_kept", "implies(old(sorted_by_time(collection)),"
-                                  " sorted_by_time(collection))")],
+                                  " sorted_by_time(collection))"),
+                  ("distinct_kept", "implies(old(distinct(collection)) and forall(0, old(len(collection)), lambda j: old(collection[j]) != message), distinct(collection))")],
          loops={"L0": dict(fingerprint="while lo < hi", dec="hi - lo", inv=[
              ("bounds", "0 <= lo and lo <= hi and hi <= len(collection)"),
              ("left_le", "implies(sorted_by_time(collection), forall(0, lo, lambda j: collection[j].time <= message.time))"),
